@@ -338,16 +338,21 @@ Definition xlate_and_clip (a : auxst) (line col cols : Z) : option (Z * Z * Z * 
   let cols := if cols >? right c - col then right c - col else cols in
   Some (line, col, cols, startcol).
 
+(* put_substr (introduced by fixes/C13-copyrect-spans.patch; put_string is its special case
+   offs = 0): columns [offs, offs+cols) of string [t] at (line, col) *)
+Definition put_substr (s : rb) (line col : Z) (t : list Z) (offs cols : Z) : res rb :=
+  match xlate_and_clip (aux s) line col cols with
+  | None => Ok s
+  | Some (l, c, n, sc) =>
+      on_row s l (fun r => put_row (fun k => CText (cur_pen (aux s)) t k) r c n (sc + offs))
+  end.
+
 (* put_string: (new state, return value) *)
 Definition put_string (s : rb) (line col : Z) (t : list Z) : res (rb * Z) :=
   if negb (text_valid t) then Ok (s, -1) else
   let w := text_width t in
-  match xlate_and_clip (aux s) line col w with
-  | None => Ok (s, w)
-  | Some (l, c, n, sc) =>
-      do s' <- on_row s l (fun r => put_row (fun k => CText (cur_pen (aux s)) t k) r c n sc);
-      Ok (s', w)
-  end.
+  do s' <- put_substr s line col t 0 w;
+  Ok (s', w).
 
 (* put_char (repaired code, fixes/C04-char-width.patch): a character that is not exactly one
    column wide goes the way of a one-character text; returns the columns it occupies, or -1 *)
